@@ -308,6 +308,18 @@ func safeResults(vs []*big.Int, outs circuit.IO) (r []interface{}, err error) {
 	return mpc.Results(vs, outs), nil
 }
 
+// textual tells whether the type is completely described by its name: bool,
+// intN, uintN and fixed-size arrays of such types.
+func (t OType) textual() bool {
+	switch t.K {
+	case "bool", "int", "uint":
+		return true
+	case "arr":
+		return t.N > 0 && t.El.textual()
+	}
+	return false
+}
+
 func (t OType) nestedArray() bool {
 	return (t.K == "arr" || t.K == "slice") && (t.El.K == "arr" || t.El.K == "slice")
 }
@@ -363,6 +375,21 @@ func runResult(cs ResCase) ev.Outcome {
 		if x.Cmp(vals[i]) != 0 {
 			f.add("result/"+o.T.K+"/argument-modified",
 				"Result(x=0x%s, %s) returned %s and changed x to %s", o.Bits, o.T, n1, x)
+		}
+		// The same value decoded through the textual form of the type
+		// (what a circuit file or the streaming protocol carries): for
+		// fixed-size arrays of integers and booleans the text determines
+		// the type completely.
+		if o.T.textual() {
+			if pt, err := types.Parse(arg.Type.String()); err != nil {
+				f.add("result/"+o.T.K+"/type-text-unparsable", "types.Parse(%q): %v", arg.Type.String(), err)
+			} else if r3, err := safeResult(new(big.Int).Set(vals[i]), circuit.IOArg{Name: arg.Name, Type: pt}); err != nil {
+				f.add("result/"+o.T.K+"/panic", "Result(0x%s, types.Parse(%q)): %v", o.Bits, arg.Type.String(), err)
+			} else if n3, err := normalise(o.T, r3); err != nil || n3 != want[i] {
+				f.add("result/"+o.T.K+"/type-text/wrong-value",
+					"Result(0x%s, types.Parse(%q)) = %s (err %v), the encoded value is %s",
+					o.Bits, arg.Type.String(), n3, err, want[i])
+			}
 		}
 		r2, err := safeResult(x, arg)
 		if err != nil {
